@@ -27,6 +27,9 @@ pub enum Ev20 {
     FailedBuild(String),
     Run { tenant: usize, abandon_after: Option<usize>, cleanup_full: bool, pop_result: bool },
     HostAdd(Val),
+    /// a throw-away program built and run in the shared object (its result is not judged): residue of an
+    /// earlier execution, typically one that stops with an error in the middle of an operation
+    Scratch(String),
     /// Basic: retain_all_current_data + optimize(&[]); nothing on Simple
     Compact,
 }
@@ -357,6 +360,23 @@ fn execute_in<D: SimData>(sc: &Sc20) -> Outcome {
                     _ => {}
                 }
             }
+            Ev20::Scratch(src) => {
+                sh.str("scratch");
+                d.host_mut().recording = false;
+                let o = compile(&mut d, src);
+                if let BuildOutcome::Ok(b) = o {
+                    let r = run_to_end(&mut d, b.entry_jump, b.jumps.0, &Val::Unit, 400);
+                    out.count("scratch_runs", 1);
+                    if r.status.starts_with("err") {
+                        out.probe("scratch-run-stopped-with-error");
+                    }
+                    if let Some(p) = r.status.strip_prefix("panic:") {
+                        out.foreign_panic = Some(p.to_string());
+                    }
+                    cleanup(&mut d, true);
+                }
+                d.host_mut().recording = true;
+            }
             Ev20::HostAdd(v) => {
                 sh.str("add");
                 if materialise(&mut d, v).is_err() {
@@ -496,13 +516,15 @@ fn gen_tenant(rng: &mut Rng, keys: &mut Vec<String>) -> Tenant {
     cfg.w_cast = 0;
     *keys = cfg.keys.clone();
     let mut g = Gen::new(rng, cfg);
+    g.empty_nested = true;
     if g.rng.chance(1, 6) {
         // a tenant that is a reapply loop at the top level: its jump back must land on its own entry
         let (p, input) = g.toplevel_loop(budget.max(8));
-        return Tenant { src: p.top(), input };
+        let src = g.print(&p);
+        return Tenant { src, input };
     }
     let p = g.program();
-    let src = p.top();
+    let src = g.print(&p);
     let input = gen_input(rng, keys);
     Tenant { src, input }
 }
@@ -568,6 +590,19 @@ impl Campaign for C20 {
                         rng.pick(&["1 + 5abc", "{ 7 } <~ (3 ?> 5abc |> 2)", "(t1 && 9zz) || 4", ":ka = { 2 + 2 } 5abc"]).to_string(),
                     )),
                     7 => events.push(Ev20::HostAdd(crate::c19::random_value(rng, 2))),
+                    9 => events.push(Ev20::Scratch(
+                        rng.pick(&[
+                            "(\"abcdef\" <~ (2..9)) ~# \"\"",
+                            "(7 = (() .. $?)) ~# \"\"",
+                            "(1 2 (\"ab\" <~ (1..7))) ~# :s",
+                            "((1 2 3) <~ (1..9)) ~# (,)",
+                            "(:ka = 5, 6, (3 4)).kb",
+                            "{ $ + 1 } <~ ((1 <> 2) <~ (0..5)) ~# 'x'",
+                            "12345 ~# \"\"",
+                            "{ { $.9 } <~ (1 2) } <~ 3",
+                        ])
+                        .to_string(),
+                    )),
                     8 if basic => events.push(Ev20::Compact),
                     _ => {}
                 }
@@ -623,6 +658,11 @@ impl Campaign for C20 {
             if sc.tenants[i].input != Val::Unit {
                 let mut c = sc.clone();
                 c.tenants[i].input = Val::Unit;
+                out.push(c);
+            }
+            for cand in crate::c06::shrink_source(&sc.tenants[i].src).into_iter().take(30) {
+                let mut c = sc.clone();
+                c.tenants[i].src = cand;
                 out.push(c);
             }
             for simpler in ["5", "t1", "7 + 1"] {
